@@ -26,6 +26,7 @@ INTERNAL = ["BodyBegin", "AwaitExt", "SpawnCreate", "Launch", "StartReturn", "Aw
 MERGE_RE = r"^(?!(%s)$)" % "|".join(DRIVER)
 TLC_WORKERS = 4
 RET, THR = ("ret", 0), ("thr", 0)
+RETS = [("ret", 0), ("ret", 1), ("ret", 2)]   # co_return temporary / variable / std::move(variable)
 
 
 def mk(T, root, body):
@@ -96,6 +97,7 @@ def families(quick):
                     for l3 in ([RET], [("aw", 2), THR]):
                         ps.append(mk("int", r, [[(m1, 2), (m2, 3), RET], l2, l3]))
     fam["siblings"] = ps
+    fam["payload"] = payload_family(quick)
     if not quick:
         # depth 2 with every pair of in-coroutine start modes
         ps = []
@@ -117,7 +119,46 @@ def families(quick):
     return fam
 
 
-def make_proj(ps):
+def payload_family(quick):
+    """tracked result type: every way the result leaves the coroutine (co_return form) x every way it reaches its
+    bound party (native start modes, in-coroutine start modes, chains), synchronous and after a suspension"""
+    ps = []
+    pres = ([], [("aw", 1)])
+    for r in ROOTS:
+        for rt in RETS:
+            for pre in pres:
+                ps.append(mk("trk", r, [pre + [rt]]))
+    for r in (("start",) if quick else ("start", "detach", "join")):
+        for m in KINDS:
+            for rt in RETS:
+                for pre in pres:
+                    ps.append(mk("trk", r, [[(m, 2), rt], pre + [rt]]))
+    for r in ("start", "join", "detach"):
+        for d in (2, 3):
+            for rt in RETS:
+                for pre in pres:
+                    ps.append(mk("trk", r, [[("co", i + 1), rt] for i in range(1, d + 1)] + [pre + [rt]]))
+        ps.append(mk("trk", r, [[THR]]))
+        ps.append(mk("trk", r, [[("co", 2), RETS[1]], [("aw", 1), THR]]))
+    return ps
+
+
+def alloc_family():
+    """the SMALL subset used by alloc_replay (C20)"""
+    ps = []
+    for r in ("join", "start", "startp", "fctor", "retfut", "detach", "claimed"):
+        for rt in RETS:
+            for pre in ([], [("aw", 1)]):
+                ps.append(mk("trk", r, [pre + [rt]]))
+    for m in ("co", "st", "rf", "pa"):
+        for rt in RETS:
+            ps.append(mk("trk", "start", [[(m, 2), rt], [rt]]))
+    ps.append(mk("int", "join", [[("aw", 1), RET]]))
+    ps.append(mk("void", "join", [[RET]]))
+    return ps
+
+
+def make_proj(ps, alloc=False):
     texts = [prog_text(p) for p in ps]
     started_by = []
     for p in ps:
@@ -163,7 +204,7 @@ def make_proj(ps):
                 "obj": st["obj"][c - 1],
                 "seen": st["seen"][c - 1],
             })
-        return {
+        out = {
             "P": texts[i],
             "blocked": st["pend"] == "blocked",
             "c": cl,
@@ -172,8 +213,12 @@ def make_proj(ps):
             "ev": st["ev"],
             "ext": [e["st"] for e in st["ext"]],
             "live": live,
+            "pay": {"copies": st["pc"], "dbl": 0, "live": st["pl"]},
             "ret": st["ret"],
         }
+        if alloc:
+            out["la"] = 0    # the library itself makes no operator new call (frames and payload constructions excluded)
+        return out
     return proj
 
 
@@ -206,6 +251,32 @@ def check_deterministic(g, tag):
                 tag, len(real), [l for (l, d) in real]))
 
 
+def alloc_replay(ctx):
+    """C20 hook (also part of C04's own run): starting, completing, joining and awaiting an async<T> makes no operator
+    new call of its own -- the coroutine frames (none under the counting storage policy) and the payloads the bodies
+    construct are the only allocations -- and the result object is never copied on its way to the bound party (a copy of
+    an owning T is an allocation inside a library call).  A small family over the tracked result type (native start modes
+    join / start / startp / fctor / retfut / detach / claimed and co_await / start / future-returning / start(promise)
+    inside a coroutine x the three co_return forms x synchronous / suspended completion) is checked by TLC and every
+    edge replayed with the payload's copy count and the library's own operator-new count as compared observations.
+    Violations are registered in ctx (they appear under the calling property)."""
+    own = ctx.prop.upper() != "C04"
+    rp = vlib.compile_harness(os.path.join(vlib.VERIF, "harness/async_replay.cpp"),
+                              "async_replay_" + ctx.prop.lower() if own else "async_replay",
+                              sanitize=False if own else not ctx.quick, opt="-O0" if own else "-O1")
+    ps = alloc_family()
+
+    def hdr(k, st0):
+        return {"alloc": "count" if k % 2 else "new", "other": False, "obs": "alloc"}
+    graph_replay(ctx, "Async", "Async", "Async_base.cfg", "alloc", rp, make_proj(ps, alloc=True), header_fn=hdr,
+                 merge_re=MERGE_RE, must_take=must_take(ps), defs={"Programs": tla_programs(ps)},
+                 tlc_kw={"workers": TLC_WORKERS})
+    ctx.assume("async: the library's own allocations are the global operator new calls inside the native driver's calls "
+               "(create / start / join / resolve / drop) minus one per coroutine frame not placed by the counting storage and "
+               "minus one per payload constructed from its id; exceptions are allocated by the C++ runtime with malloc and "
+               "not counted; the tracked payload owns a 24-byte heap buffer (a copy allocates, a move does not)")
+
+
 def run(ctx):
     rp = vlib.compile_harness(os.path.join(vlib.VERIF, "harness/async_replay.cpp"), "async_replay",
                               sanitize=not ctx.quick)
@@ -223,6 +294,8 @@ def run(ctx):
                               extra_random=100 if ctx.quick else 1000, tlc_kw={"workers": TLC_WORKERS})
         if g is not None:
             check_deterministic(g, tag)
+    if len(ctx.violations) < 3:
+        alloc_replay(ctx)
     # the hand-runnable instance (spec/Async/Async_small.tla) stays checked as well
     res = ctx.tlc("Async", "Async_small", os.path.join(vlib.VERIF, "spec/Async/Async_small.cfg"), "small",
                   workers=TLC_WORKERS)
